@@ -21,7 +21,7 @@ PROPS = {
     "C03": dict(level="proof", quick=Q(("queries", 60, 200), ("cache", 30, 150)), thorough=Q(("queries", 1500, 500), ("cache", 600, 400), ("batch", 400, 400), ("relations", 400, 400))),
     "C04": dict(level="proof", quick=Q(), thorough=Q()),
     "C05": dict(level="proof", quick=Q(("relations", 70, 200), ("mixed", 30, 150)), thorough=Q(("relations", 1500, 500), ("mixed", 600, 500), ("batch", 400, 400))),
-    "C06": dict(level="proof", quick=Q(("relations", 60, 200), ("cache", 30, 150)), thorough=Q(("relations", 1500, 500), ("cache", 600, 400), ("reset", 400, 400))),
+    "C06": dict(level="proof", quick=Q(("relations", 60, 200), ("cache", 30, 150), ("reset", 40, 200)), thorough=Q(("relations", 1500, 500), ("cache", 600, 400), ("reset", 400, 400))),
     "C07": dict(level="proof", quick=Q(("cache", 70, 200), ("relations", 30, 150)), thorough=Q(("cache", 1500, 500), ("relations", 600, 400), ("reset", 400, 400), ("batch", 400, 400))),
     "C08": dict(level="proof", quick=Q(("batch", 70, 200), ("mixed", 30, 150)), thorough=Q(("batch", 1500, 500), ("mixed", 600, 400), ("cache", 400, 400))),
     "C09": dict(level="proof", quick=Q(("locks", 60, 200), ("queries", 30, 150)), thorough=Q(("locks", 1200, 500), ("queries", 600, 400), ("mixed", 400, 400))),
